@@ -160,6 +160,68 @@ def explore(ctx, model, spec):
             ctx.spec_violation("failing-callback-disturbs-request", A.scenario_case(sc), f"with failure {o1}, without {o2}")
 
 
+async def _blocked_write(D, cancel_at, has_response_at):
+    """The peer took the request and then stops reading, and the write stream has no buffer: the cancelled notification cannot
+    be handed over.  Whatever else happens, the call must be over by its deadline.  (A watchdog resumes the peer well after the
+    deadline so that a call that ignores even cancellation from outside still comes back to be judged.)"""
+    import asyncio
+    import importlib
+    import anyio
+    sm = importlib.import_module("chuk_mcp.protocol.messages.send_message")
+    in_send, in_recv = anyio.create_memory_object_stream(1000)
+    out_send, out_recv = anyio.create_memory_object_stream(0)
+    tok = sm.CancellationToken()
+    loop = asyncio.get_running_loop()
+    t0 = loop.time()
+    TICK = A.TICK
+    res = {}
+
+    async def peer():
+        req = await out_recv.receive()
+        if has_response_at is not None:
+            await anyio.sleep(max(0.0, t0 + has_response_at * TICK - loop.time()))
+            in_send.send_nowait(A.build_message(("res", ("me",), 7), req.id, None))
+        await anyio.sleep(max(0.0, t0 + (D + 300) * TICK - loop.time()))
+        while True:                     # the watchdog: start reading again
+            await out_recv.receive()
+
+    async def canceller():
+        await anyio.sleep(cancel_at * TICK)
+        tok.cancel()
+
+    async with anyio.create_task_group() as tg:
+        tg.start_soon(peer)
+        tg.start_soon(canceller)
+        try:
+            await sm.send_message(in_recv, out_send, "tools/call", None, timeout=D * TICK, message_id="bp", cancellation_token=tok)
+            res["out"] = "returned"
+        except TimeoutError:
+            res["out"] = "timeout"
+        except sm.CancelledError:
+            res["out"] = "cancelled"
+        except Exception as e:          # noqa: BLE001
+            res["out"] = "exc:" + type(e).__name__
+        res["end"] = round((loop.time() - t0) / TICK, 3)
+        tg.cancel_scope.cancel()
+    return res
+
+
+def check_blocked_write(ctx):
+    from vloop import vrun
+    for D in (100, 120):
+        for cancel_at in (1, 20, 49, 50, 51, 99):
+            for resp in (None, 60):
+                r = vrun(_blocked_write, D, cancel_at, resp)
+                case = {"write_stream": "no buffer, peer stops reading after the request", "D": D, "cancel": cancel_at,
+                        "response_at": resp}
+                ctx.case(case, nontrivial=True)
+                ctx.count("blocked-write:" + r["out"])
+                ctx.spec_total += 1
+                if r["end"] > D + 0.5:
+                    ctx.spec_violation("ended-after-deadline:cancelled-notification-could-not-be-written", case,
+                                       f"deadline {D} ticks, the call came back at {r['end']} ticks with {r['out']}")
+
+
 def run(ctx):
     lib.standard_obligations(ctx, GEN, TARGETS)
     spec = lib.Driver("AwaitSpec")
@@ -175,17 +237,27 @@ def run(ctx):
     if ctx.corr_mismatch and not ctx.escalated and not ctx.spec_fail:
         ctx.escalated = True
         explore(ctx, model, spec)
+    check_blocked_write(ctx)
     if ctx.thorough:
         lib.coqchk(ctx, "C14")
     ctx.rule = ("real send_message under a virtual clock: placements of cancel x response on the 10 ms grid in windows around t=0, 0.5 s, "
                 "1.0 s, 1.5 s x 4 deadlines x traffic {none, burst around the cancel, flood every tick} (every 3rd placement in quick, "
                 "all in thorough); deadline under flood / late answer / answer exactly at the deadline; progress streams with "
                 "matching/foreign tokens, missing fields and the callback raising at each position, with and without callback; seeded "
-                "mixtures; plus with/without-failure pairs. distinct = distinct scenario dicts; non-trivial = has arrivals or a token")
+                "mixtures; plus with/without-failure pairs; a write stream without buffer whose peer stops reading after the request (the "
+                "cancelled notification cannot be written): the deadline still holds. distinct = distinct scenario dicts; non-trivial = has arrivals or a token")
     return lib.finish(ctx, TRUSTED, ASSUME)
 
 
 def replay(ctx, data):
+    _c = data.get("case") or {}
+    if "write_stream" in _c:
+        from vloop import vrun
+        r = vrun(_blocked_write, _c["D"], _c["cancel"], _c["response_at"])
+        print("deadline", _c["D"], "ticks; the call came back at", r["end"], "ticks with", r["out"])
+        if r["end"] > _c["D"] + 0.5:
+            print("REPRODUCED", data.get("class"))
+        return 1 if r["end"] > _c["D"] + 0.5 else 0
     spec = lib.Driver("AwaitSpec")
     sc = A.case_to_scenario(data["case"])
     A.check_scenarios(ctx, [sc], None, spec, {"c14", "c01"})
